@@ -3,6 +3,7 @@
 From Bnum Require Import Base Prim.
 From Bnum.Model Require Import Digit Core Shift AddSub Mul Div Bits.
 From Bnum.Proofs Require Import AddSub Mul Shift Cmp BitsLemmas Bits SignedAux DivFinal RandomDeps.
+From Bnum.Proofs Require Random.
 
 Lemma widening_mul_spec_holds : widening_mul_spec.
 Proof.
@@ -58,3 +59,6 @@ Proof.
   intros w n a b Hw Hn Ha Hb. pose proof (I_overflowing_sub_ok w n a b Hw Hn Ha Hb) as H.
   destruct (I_overflowing_sub w a b) as [r f]. destruct H as (_ & _ & H). exact H.
 Qed.
+
+Lemma range_premises_holds : Random.range_premises.
+Proof. exact (conj widening_mul_spec_holds (conj wrapping_add_spec_holds wrapping_sub_spec_holds)). Qed.
